@@ -128,15 +128,16 @@ Record sjob := { s_name : N; s_state : jstate; s_blocked : list N }.
 Record cluster := {
   c_submitter : option N;
   c_complete : bool;
+  c_canceled : bool;                   (* set by cancel-jobs; HpcSubmitter.run submits nothing while it is set *)
   c_num : Z; c_submitted : Z; c_completed : Z;
   c_groups : list (N * N);             (* submission group name, parameters (opaque) *)
   c_jobs : list sjob }.
 
 Definition set_submitter (s : option N) (c : cluster) : cluster :=
-  {| c_submitter := s; c_complete := c_complete c; c_num := c_num c; c_submitted := c_submitted c;
+  {| c_submitter := s; c_complete := c_complete c; c_canceled := c_canceled c; c_num := c_num c; c_submitted := c_submitted c;
      c_completed := c_completed c; c_groups := c_groups c; c_jobs := c_jobs c |}.
 Definition set_groups (g : list (N * N)) (c : cluster) : cluster :=
-  {| c_submitter := c_submitter c; c_complete := c_complete c; c_num := c_num c; c_submitted := c_submitted c;
+  {| c_submitter := c_submitter c; c_complete := c_complete c; c_canceled := c_canceled c; c_num := c_num c; c_submitted := c_submitted c;
      c_completed := c_completed c; c_groups := g; c_jobs := c_jobs c |}.
 
 (* Cluster._promote_to_submitter *)
@@ -162,16 +163,25 @@ Definition counts_submitted (rerun : list N) (j : sjob) : bool :=
   negb (memN (s_name j) rerun) && negb (jstate_eqb (s_state j) NOT_SUBMITTED).
 
 (* Cluster.prepare_for_resubmission; None = `assert self._config.is_complete`.
+   The canceled flag is cleared (a resubmission is a request to run again).
    Counters come from the job table: submitted = jobs that are not rerun and not NOT_SUBMITTED,
    completed = jobs that are not rerun and DONE. *)
 Definition prepare (c : cluster) (rerun : list N) (d : list (N * list N)) : option cluster :=
   if c_complete c then
-    Some {| c_submitter := c_submitter c; c_complete := false; c_num := c_num c;
+    Some {| c_submitter := c_submitter c; c_complete := false; c_canceled := false; c_num := c_num c;
             c_submitted := Z.of_nat (length (filter (counts_submitted rerun) (c_jobs c)));
             c_completed := Z.of_nat (length (filter (counts_completed rerun) (c_jobs c)));
             c_groups := c_groups c;
             c_jobs := map (prep_job rerun d) (c_jobs c) |}
   else None.
+
+(* the gate of HpcSubmitter.run: a submitter round hands batches to the HPC only if not canceled *)
+Definition round_may_submit (c : cluster) : bool := negb (c_canceled c).
+
+(* the jobs a submitter round may put into batches: HpcSubmitter._get_available_jobs iterates
+   cluster.iter_jobs(state=NOT_SUBMITTED) (of every group in turn) *)
+Definition offered (c : cluster) : list N :=
+  map s_name (filter (fun j => jstate_eqb (s_state j) NOT_SUBMITTED) (c_jobs c)).
 
 (* ---------- the command ---------- *)
 Record world := {
